@@ -509,3 +509,19 @@ def hashmap_len(I, m, a, dt):
     mp_ = getmap(I, a[0]); k = m.group(1)
     if k == 'clear': mp_.entries.clear(); return VUnit()
     return VInt(len(mp_.entries), 'usize') if k == 'len' else VBool(not mp_.entries)
+@model(r'^' + BT + r'::<.*>::retain::<.*>$')
+def map_retain(I, m, a, dt):
+    mp_ = getmap(I, a[0]); keep = []
+    for e in list(mp_.entries):
+        r = I.call(a[1], [VRef(Cell(e[0]), []), VRef(e[1], [])])
+        if I.branch(r.v): keep.append(e)
+    mp_.entries[:] = keep
+    return VUnit()
+@model(r'^' + VEC + r'::<.*>::retain::<.*>$')
+def vec_retain(I, m, a, dt):
+    v = getvec(I, a[0]); keep = []
+    for i, x in enumerate(list(v.items)):
+        r = I.call(a[1], [VRef(VecSlot(v, i), [])])
+        if I.branch(r.v): keep.append(x)
+    v.items[:] = keep
+    return VUnit()
